@@ -15,3 +15,4 @@ open GrVerif.Props.C04
 #print axioms forest_for_clients
 #print axioms attachments_stay_in_segment
 #print axioms every_opcode_keeps_parents_alive
+#print axioms bases_form_one_chain
